@@ -62,21 +62,23 @@ class Env:
             e = e.parent
         return None
 
-    def declare(self, name, value):
-        c = Cell(value)
+    def declare(self, name, value, home=0, kind="let"):
+        c = Cell(value, home, kind)
         self.vars[name] = c
         return c
 
 
 class Frame:
-    __slots__ = ("name", "line", "self_val", "owner", "native")
+    __slots__ = ("name", "line", "self_val", "owner", "native", "aid", "creator")
 
-    def __init__(self, name, self_val=None, owner=None, native=False):
+    def __init__(self, name, self_val=None, owner=None, native=False, aid=0, creator=0):
         self.name = name
         self.line = 0
         self.self_val = self_val
         self.owner = owner
         self.native = native
+        self.aid = aid  # activation id
+        self.creator = creator  # activation that created the running closure
 
 
 class Result:
@@ -113,6 +115,8 @@ class Interp:
         self.module_name = "main"
         self.cur_exports = None
         self.chan_ids = 0
+        self.next_aid = 1
+        self.live = set()
         _natives.install(self)
 
     # ------------------------------------------------------------------ utilities
@@ -235,13 +239,16 @@ class Interp:
     def run_module(self, path, module_ast, frame_name="script"):
         env = Env(None)
         names = declared_names(module_ast)
+        aid = self.next_aid
+        self.next_aid += 1
+        self.live.add(aid)
         for n in names:
-            env.declare(n, UNDEF)
+            env.declare(n, UNDEF, aid, "module")
         exports = {}
         self.modules[path] = (env, exports)
         saved = (self.cur_exports, self.frames)
         self.cur_exports = exports
-        frame = Frame(frame_name)
+        frame = Frame(frame_name, aid=aid)
         self.frames = self.frames + [frame]
         try:
             self.exec_block_in(module_ast, env, module_level=True)
@@ -259,15 +266,17 @@ class Interp:
         for s in stmts:
             self.exec_stmt(s, inner, False)
 
-    def declare(self, env, name, value, module_level):
+    def declare(self, env, name, value, module_level, kind="let"):
+        aid = self.frames[-1].aid
         if module_level:
             c = env.vars.get(name)
             if c is None:
-                c = env.declare(name, value)
+                c = env.declare(name, value, aid, "module")
             else:
                 c.v = value
+                c.w = aid
             return c
-        return env.declare(name, value)
+        return env.declare(name, value, aid, kind)
 
     def exec_stmt(self, s, env, module_level=False):
         self.tick()
@@ -285,12 +294,14 @@ class Interp:
             self.declare(env, s[1], v, module_level)
         elif k == "fn":
             if module_level:
-                clo = LClosure(s[1], s[2], ("block", s[3]), env, "fn", module=self.module_name)
+                clo = LClosure(s[1], s[2], ("block", s[3]), env, "fn", module=self.module_name,
+                               home=self.frames[-1].aid)
                 self.declare(env, s[1], clo, True)
             else:
                 # a local function can refer to itself: declare first
-                c = env.declare(s[1], None)
-                c.v = LClosure(s[1], s[2], ("block", s[3]), env, "fn", module=self.module_name)
+                c = env.declare(s[1], None, self.frames[-1].aid, "fn")
+                c.v = LClosure(s[1], s[2], ("block", s[3]), env, "fn", module=self.module_name,
+                               home=self.frames[-1].aid)
         elif k == "class":
             self.exec_class(s, env, module_level)
         elif k == "if":
@@ -349,7 +360,7 @@ class Interp:
         it = self.eval(s[2], env)
         it = self.get_iter(it)
         loop_env = Env(env)
-        item = loop_env.declare(s[1], None)  # one variable for the whole loop
+        item = loop_env.declare(s[1], None, self.frames[-1].aid, "for")  # one variable for the whole loop
         while True:
             self.tick()
             if not self.iter_next(it):
@@ -418,7 +429,7 @@ class Interp:
                     bt.append((name, line, native))
                 e.inst.fields["backTrace"] = LList([self.fmt_bt(b) for b in bt])
                 cenv = Env(env)
-                cenv.declare(var, e.inst)
+                cenv.declare(var, e.inst, self.frames[-1].aid, "catch")
                 for st in body:
                     self.exec_stmt(st, cenv, False)
                 return
@@ -448,6 +459,8 @@ class Interp:
         else:
             parent = self.classes["Object"]
         cls = LClass(name, parent)
+        if parent_name is not None and parent.native_kind is None:
+            self.label("inherit")
         # the class name is visible inside its own methods
         if module_level:
             self.declare(env, name, cls, True)
@@ -562,7 +575,7 @@ class Interp:
                     parts.append(self.str_of(v))
             return "".join(parts)
         if k == "lambda":
-            return LClosure("lambda", e[1], e[2], env, "lambda", None, self.module_name)
+            return LClosure("lambda", e[1], e[2], env, "lambda", None, self.module_name, home=self.frames[-1].aid)
         if k == "self":
             return self.frames_self(env)
         if k == "at":
@@ -598,6 +611,8 @@ class Interp:
         c = env.lookup("self") if env is not None else None
         if c is None:
             raise Unsupported("self outside of a method")
+        if c.home != self.frames[-1].aid:
+            self.res.labels.add("cap:self")
         return c.v
 
     def frames_owner(self, env):
@@ -615,6 +630,15 @@ class Interp:
             return v
         if c.v is UNDEF:
             raise self.error("RuntimeError", "Undefined variable %s" % name)
+        f = self.frames[-1]
+        if c.home != f.aid:
+            self.res.labels.add("cap:" + c.kind)
+            if c.w != f.aid:
+                self.res.labels.add("cross_scope_read")
+            if c.home != f.creator and c.kind != "module":
+                self.res.labels.add("capture_of_capture")
+        elif c.w != f.aid:
+            self.res.labels.add("cross_scope_read")
         return c.v
 
     def eval_bin(self, e, env):
@@ -731,11 +755,15 @@ class Interp:
         if c is None:
             raise Unsupported("assignment to unresolved name %s" % name)
         c.v = v
+        c.w = self.frames[-1].aid
 
     # ------------------------------------------------------------------ properties and calls
     def get_prop(self, obj, name):
         if isinstance(obj, LInstance):
             if name in obj.fields:
+                p = obj.cls.parent
+                if p is not None and name in p.fields and p.native_kind is None:
+                    self.label("inherited_field")
                 return obj.fields[name]
         if isinstance(obj, LModuleObj):
             if name in obj.exports:
@@ -764,9 +792,18 @@ class Interp:
             if nm is not None:
                 return LBound(obj, nm)
             return None
-        m = self.class_of(obj).find_method(name)
+        cls = self.class_of(obj)
+        m = cls.find_method(name)
         if m is None:
             return None
+        if cls.native_kind is None:
+            # was an overridden definition chosen?
+            c = cls
+            while c is not None and name not in c.methods:
+                c = c.parent
+            if c is not None and c.parent is not None and c.parent.native_kind is None and \
+                    c.parent.find_method(name) is not None:
+                self.label("override_dispatch")
         return LBound(obj, m)
 
     def set_prop(self, obj, name, v):
@@ -780,6 +817,8 @@ class Interp:
     def invoke(self, obj, name, args):
         """obj.name(args) the way a fused invoke does: fields shadow methods."""
         if isinstance(obj, LInstance) and name in obj.fields:
+            if obj.cls.find_method(name) is not None:
+                self.label("shadow_call")
             return self.call_value(obj.fields[name], args)
         if isinstance(obj, LModuleObj):
             if name in obj.exports:
@@ -801,6 +840,8 @@ class Interp:
                 return self.invoke(obj, callee[2], args)
             # with arguments the property is read first (bound method / field), then called
             if isinstance(obj, LInstance) and callee[2] in obj.fields:
+                if obj.cls.find_method(callee[2]) is not None:
+                    self.label("shadow_call")
                 return self.call_value(obj.fields[callee[2]], args)
             f = self.get_prop_for_call(obj, callee[2])
             return self.call_value(f, args)
@@ -849,12 +890,17 @@ class Interp:
         if len([f for f in self.frames]) >= self.max_frames:
             raise self.error("RuntimeError", "Stack overflow.")
         env = Env(fn.env)
+        aid = self.next_aid
+        self.next_aid += 1
         for p, a in zip(fn.params, args):
-            env.declare(p, a)
-        frame = Frame(fn.name, None, None)
+            env.declare(p, a, aid, "param")
+        frame = Frame(fn.name, None, None, aid=aid, creator=fn.home)
         if fn.kind in ("method", "init", "static"):
-            env.declare("self", recv)
-            env.declare("$owner", fn.owner)
+            env.declare("self", recv, aid, "self")
+            env.declare("$owner", fn.owner, aid, "self")
+        if fn.home not in self.live:
+            self.res.labels.add("called_after_return")
+        self.live.add(aid)
         saved = self.frames
         self.frames = saved + [frame]
         try:
@@ -872,6 +918,7 @@ class Interp:
             return r.value
         finally:
             self.frames = saved
+            self.live.discard(aid)
 
 
 def fdiv(l, r):
